@@ -942,6 +942,7 @@ func init() {
 		"os.ErrPermission": func(i *interpreter) value { return i.globalOf("io/fs", "ErrPermission") },
 		"os.ErrInvalid":    func(i *interpreter) value { return i.globalOf("io/fs", "ErrInvalid") },
 		"os.ErrClosed":     func(i *interpreter) value { return i.globalOf("io/fs", "ErrClosed") },
+		"os.Args":          func(i *interpreter) value { return []value{"verif"} },
 		"errors.ErrUnsupported": func(i *interpreter) value {
 			ep := i.prog.ImportedPackage("errors").Type("errorString").Type()
 			p := new(value)
@@ -967,6 +968,9 @@ func (i *interpreter) globalOf(pkgPath, name string) value {
 func initAllowed(p string) bool {
 	if skipInit[p] {
 		return false
+	}
+	if p == "net/textproto" || p == "net/url" {
+		return true
 	}
 	if strings.HasPrefix(p, "google.golang.org/protobuf") || strings.HasPrefix(p, "deps.dev/api") || strings.HasPrefix(p, "google.golang.org/grpc") ||
 		strings.HasPrefix(p, "google.golang.org/genproto") || strings.HasPrefix(p, "crypto/") || strings.HasPrefix(p, "net/") ||
